@@ -116,7 +116,9 @@ func (o Op) Coq() string {
 			c = "CProbe"
 		case "search":
 			c = "CSearch"
-		case "searchbad":
+		case "searchbad", "fetchbadpart":
+			// a FETCH whose item fails (BODY[9] of a single-part message) is, like the refused SEARCH, answered NO after the
+			// trailing flush of handleSelectedCommand only; it must not leave a trace (no \Seen) in the snapshot
 			c = "CSearchBad"
 		case "noop":
 			c = "CNoop"
@@ -158,7 +160,7 @@ func (o Op) String() string {
 		s += fmt.Sprintf(" %v %s %v silent=%v", o.Ps, o.FOp, o.Flags, o.Silent)
 	case "copy", "move":
 		s += fmt.Sprintf(" %v m%d", o.Ps, o.Mb)
-	case "fetchbody", "fetchflagsbody":
+	case "fetchbody", "fetchflagsbody", "fetchbadpart":
 		s += fmt.Sprintf(" %v", o.Ps)
 	}
 	return s
@@ -194,16 +196,29 @@ type World struct {
 	Bulk     bool
 }
 
+// flagCase cycles the letter case in which client commands spell flags (flags are case-insensitive: a flag stored as
+// "kwa" must be removed by STORE -FLAGS (KWA) in the database as well as in the live views).
+var flagCase int
+
 func flagString(ids []int) string {
 	s := make([]string, len(ids))
 	for i, f := range ids {
-		s[i] = FlagNames[f]
+		n := FlagNames[f]
+		switch flagCase % 3 {
+		case 1:
+			n = strings.ToUpper(n)
+		case 2:
+			n = strings.ToUpper(n[:2]) + n[2:]
+		}
+		flagCase++
+		s[i] = n
 	}
 	return strings.Join(s, " ")
 }
 
 func Start(k, nmbox int, bulk ...bool) (*World, error) {
 	verifhook.Reset()
+	flagCase = 0
 	verifhook.SetHold(func(int64) bool { return true })
 	var bulkTime time.Duration
 	if len(bulk) > 0 && bulk[0] {
@@ -390,6 +405,8 @@ func (w *World) Do(o Op) (StepObs, error) {
 		r, err = c.Cmd("SEARCH ALL")
 	case "searchbad":
 		r, err = c.Cmd("SEARCH CHARSET X-UNKNOWN-CHARSET ALL")
+	case "fetchbadpart":
+		r, err = c.Cmd(fmt.Sprintf("FETCH %s (BODY[9])", psString(o.Ps)))
 	case "noop":
 		r, err = c.Cmd("NOOP")
 	case "check":
